@@ -598,6 +598,7 @@ func TestVerif_C04_Schedules(t *testing.T) {
 		}()
 		var revRes, creRes, leaseRes rr
 		var childID, childAcc string
+		seqStart := w.tc.rec.Seq()
 		sched.Spawn("revoke", func() { revRes = w.revoke(kind, 0) })
 		sched.Spawn("create", func() {
 			childID, childAcc, creRes = w.tc.createToken(w.toks[under].id, map[string]any{"policies": []string{"default", "c04"}, "ttl": "30m"})
@@ -641,7 +642,36 @@ func TestVerif_C04_Schedules(t *testing.T) {
 			alive := w.tc.tokenAlive(childID)
 			reach := w.reaches(childID)
 			if alive || reach {
+				// Known finding F3 is the window in which the tree walk cannot see the complete child: one of its records
+				// (parent index, token entry, lease) is written after the walk listed that parent for the last time. If
+				// the walk listed the parent's children once the child was complete, it must have revoked it.
+				var idxPut, donePut int64
+				var parentPrefix string
+				ops := w.tc.rec.OpsSince(seqStart)
+				for _, o := range ops {
+					if o.Task == "create" && o.Kind == "put" && o.Err == nil {
+						donePut = o.Seq // the child is complete once its last record (the lease) is written
+						if strings.HasPrefix(o.Key, "sys/token/parent/") {
+							parentPrefix = o.Key[:strings.LastIndex(o.Key, "/")+1]
+							idxPut = o.Seq
+						}
+					}
+				}
+				// the first time the walk lists the child's parent after the child's index entry exists is the moment it
+				// meets the child; if the child is complete by then, it must be revoked. Otherwise the walk meets a
+				// half-created child (and remembers it as visited): the known window.
+				listedAfter := false
+				for _, o := range ops {
+					if o.Task == "revoke" && o.Kind == "list" && parentPrefix != "" && o.Key == parentPrefix && idxPut > 0 && o.Seq > idxPut {
+						listedAfter = o.Seq > donePut
+						break
+					}
+				}
+				detail["tree_walk_listed_parent_after_child_entry_written"] = listedAfter
 				sig := "child-created-during-tree-revoke-survives"
+				if listedAfter {
+					sig = "child-seen-by-tree-walk-survives"
+				}
 				if !overlap {
 					sig = "child-survives-revoke:no-overlap"
 				}
@@ -656,7 +686,27 @@ func TestVerif_C04_Schedules(t *testing.T) {
 			rv := w.hub.revoked[sid]
 			w.hub.mu.Unlock()
 			if err == nil && le != nil && le.ExpireTime.After(time.Now()) && rv == 0 {
+				// Known finding F3b: the lease index entry is written after the revocation listed the token's leases.
+				var idxPut int64
+				var idxPrefix string
+				ops := w.tc.rec.OpsSince(seqStart)
+				for _, o := range ops {
+					if o.Task == "lease" && o.Kind == "put" && o.Err == nil && strings.HasPrefix(o.Key, "sys/expire/token/") {
+						idxPut = o.Seq
+						idxPrefix = o.Key[:strings.LastIndex(o.Key, "/")+1]
+					}
+				}
+				listedAfter := false
+				for _, o := range ops {
+					if o.Task == "revoke" && o.Kind == "list" && idxPrefix != "" && o.Key == idxPrefix && o.Seq > idxPut && idxPut > 0 {
+						listedAfter = true
+					}
+				}
+				detail["revocation_listed_leases_after_index_written"] = listedAfter
 				sig := "lease-issued-during-tree-revoke-survives"
+				if listedAfter {
+					sig = "lease-seen-by-revocation-survives"
+				}
 				if !overlap {
 					sig = "lease-survives-revoke:no-overlap"
 				}
